@@ -330,3 +330,18 @@ Theorem C11_reads_pure_refuted_subclass_copy :
   end.
 Proof. exact reads_pure_refuted_subclass_copy. Qed.
 Print Assumptions C11_reads_pure_refuted_subclass_copy.
+
+(* TRANSPORT (pickle / copy / deepcopy, also into another process): the identity
+   on the model's values; the hash is a function of the abstract content only.
+   After any number of transport steps an object is observed exactly as a fresh
+   twin with the same content, hashes like it and is equal to it.  (That the
+   implementation's pickle / copy round trips ARE the identity on the observed
+   behaviour, across processes with different string-hash seeds, is what the
+   transport cases of the correspondence check.) *)
+Theorem C11_transport_hash : forall (Hid : rval -> atom) (Hpy : rval -> N) g s n v twin,
+  resolve g s v = resolve g s twin -> r_wf (resolve g s twin) = true ->
+  observe Hid Hpy g s (transports n v) = observe Hid Hpy g s twin /\
+  obj_hash Hpy (resolve g s (transports n v)) = obj_hash Hpy (resolve g s twin) /\
+  obj_eqb g s (transports n v) twin = true.
+Proof. exact transport_hash. Qed.
+Print Assumptions C11_transport_hash.
